@@ -291,3 +291,21 @@ proof fn axiom_vecdeque_from_vec<T>()
     ensures <VecDeque<T> as vstd::std_specs::convert::FromSpec<Vec<T>>>::obeys_from_spec(),
             forall|v: Vec<T>| (#[trigger] <VecDeque<T> as vstd::std_specs::convert::FromSpec<Vec<T>>>::from_spec(v))@ == v@
 {}
+
+// `trait Chooser<M>` of checker/simulation.rs as an opaque oracle: the only thing the checker relies on is that
+// a choice among a non-empty slice is an index into it (`UniformChooser` uses `gen_range(0..len)`).
+trait Chooser<M: Model> {
+    type State;
+    fn new_state(&self, seed: u64) -> Self::State;
+    fn choose_initial_state(&self, state: &mut Self::State, initial_states: &[M::State]) -> (r: usize)
+        ensures initial_states@.len() > 0 ==> r < initial_states@.len();
+    fn choose_action(&self, state: &mut Self::State, current_state: &M::State, actions: &[M::Action]) -> (r: usize)
+        ensures actions@.len() > 0 ==> r < actions@.len();
+}
+
+// A-KEY for the std type of fingerprints: `NonZeroU64`'s `Hash` / `Eq` are lawful, so a std `HashSet<Fingerprint>`
+// behaves as a set (vstd's HashSet specs are conditional on this).
+#[verifier::external_body]
+proof fn axiom_fingerprint_key_model()
+    ensures vstd::std_specs::hash::obeys_key_model::<Fingerprint>()
+{}
